@@ -7,12 +7,30 @@ import Scc.Sexp
 import Scc.Fun.Syntax
 import Scc.Core.Syntax
 import Scc.AxCut.Syntax
+import Scc.Fun.Parse
+import Scc.Fun.Print
+import Scc.Fun.Check
+import Scc.Fun.Sem
 import Scc.Fun2Core.Model
 import Scc.Core.Uniquify
 import Scc.Core.Focus
+import Scc.Core.Sem
+import Scc.Core.Unique
+import Scc.Core.Typing
 import Scc.Core2AxCut.Model
+import Scc.Core2AxCut.FsTyping
+import Scc.AxCut.Linearize
+import Scc.AxCut.SemNamed
+import Scc.AxCut.SemPos
+import Scc.AxCut.LinTyping
+import Scc.AxCut.TypingNamed
 import Scc.PMoves.Model
 import Scc.PMoves.Backends
+import Scc.Heap.Model
+import Scc.Backend.Mock
+import Scc.Backend.AbstractMachine
+import Scc.X86.Machine
+import Scc.A64.Machine
 
 open Scc
 
@@ -37,6 +55,22 @@ def roundtrip (kind : String) (text : String) : String :=
       | some p => "OK " ++ p.toSexp.render | none => "ERR read"
     | _ => "ERR kind"
 
+/-- comma-separated signed decimals -/
+def parseWords (args : String) : Option (List (BitVec 64)) :=
+  let ws := (args.splitOn ",").filter (· ≠ "")
+  ws.mapM fun w => w.toInt?.map (BitVec.ofInt 64)
+
+def linCheckLine (dump : String) : String :=
+  match Sexp.parse dump with
+  | none => "ERR sexp"
+  | some sx =>
+    match AxCut.readProg (dump.length + 10) sx with
+    | none => "ERR read"
+    | some p =>
+      match AxCut.linTypedCheck p with
+      | .ok () => "OK"
+      | .error e => "ILL " ++ e
+
 def dispatch (line : String) : IO String := do
   let line := line.trimAscii.toString
   match line.splitOn " " with
@@ -44,14 +78,62 @@ def dispatch (line : String) : IO String := do
   | "pmoves" :: rest =>
     let l := " ".intercalate rest
     pure (if l.startsWith "pm " || l.startsWith "subst " then Scc.PMoves.handleLine l else Scc.PMoves.handleLineBackends l)
+  | "heap" :: rest => pure (Scc.Heap.handleLine (" ".intercalate rest))
   | ["stage", pass, file] => do
     let text ← IO.FS.readFile file
     match pass with
+    | "parse" => pure (Scc.Fun.Parse.runLineParse text)
+    | "parsefixed" => pure (Scc.Fun.Parse.runLineParseFixed text)
+    | "check" => pure (Scc.Fun.Check.runLineCheck text)
     | "fun2core" => pure (Scc.Fun2Core.runLine text)
     | "uniquify" => pure (Scc.Core.runLineUniquify text)
     | "focus" => pure (Scc.Core.runLineFocus text)
     | "shrink" => pure (Scc.Core2AxCut.runLine text)
+    | "linearize" => pure (Scc.AxCut.runLine text)
     | _ => pure "ERR unknown pass"
+  | ["mock", file, hooks, c0] => do
+    let text ← IO.FS.readFile file
+    pure (Scc.Backend.runLineMock text (hooks == "1") c0.toNat!)
+  | ["sem", machine, file, args, fuel] => do
+    let text ← IO.FS.readFile file
+    let args := if args == "-" then "" else args
+    let fuel := fuel.toNat!
+    match machine with
+    | "fun" => pure (Scc.Fun.runLine text args fuel)
+    | "core" => match parseWords args with
+      | some as => pure (Scc.Core.runLineCore text as fuel) | none => pure "ERR args"
+    | "fs" => match parseWords args with
+      | some as => pure (Scc.Core.runLineFs text as fuel) | none => pure "ERR args"
+    | "named" => pure (Scc.AxCut.Named.runLineNamed text (args.replace "," " ") fuel false)
+    | "namedlin" => pure (Scc.AxCut.Named.runLineNamed text (args.replace "," " ") fuel true)
+    | "pos" => pure (Scc.AxCut.Pos.runLinePos text args fuel)
+    | "abs" => pure (Scc.Backend.Abs.runLineAbs text args fuel)
+    | _ => pure "ERR unknown machine"
+  | ["asm", arch, file, args, fuel, mon] => do
+    let text ← IO.FS.readFile file
+    let args := if args == "-" then "" else args
+    match arch with
+    | "x86" => pure (Scc.X86.runLine text args fuel.toNat! mon)
+    | "a64" => pure (Scc.A64.runLine text args fuel.toNat! mon)
+    | _ => pure "ERR unknown arch"
+  | ["wf", arch, file] => do
+    let text ← IO.FS.readFile file
+    match arch with
+    | "x86" => pure (match Scc.X86.wfCheck text with | .ok () => "OK" | .error e => "ILL " ++ e)
+    | "a64" => pure (Scc.A64.wfLine text)
+    | _ => pure "ERR unknown arch"
+  | ["typ", kind, file] => do
+    let text ← IO.FS.readFile file
+    match kind with
+    | "seq" => pure (Scc.Fun.sequencedLine text)
+    | "core" => pure (Scc.Core.runLineWellTyped text)
+    | "fs" => pure (Scc.Core2AxCut.checkFsLine text)
+    | "unique" => pure (Scc.Core.runLineUniqueCheck text)
+    | "ax" => pure (Scc.AxCut.Named.checkLine text)
+    | "lin" => pure (linCheckLine text)
+    | _ => pure "ERR unknown checker"
+  | ["fmttok", dumpFile, textFile] => do
+    pure (Scc.Fun.Print.runLineFmtTokens (← IO.FS.readFile dumpFile) (← IO.FS.readFile textFile))
   | ["sx", kind, file] => do
     let text ← IO.FS.readFile file
     pure (roundtrip kind text)
